@@ -77,8 +77,17 @@ br_aesctr_drbg_generate(br_aesctr_drbg_context *ctx, void *out, size_t len)
 		 * Run CTR.
 		 */
 		memset(buf, 0, clen);
-		ctx->cc = ctx->sk.vtable->run(&ctx->sk.vtable,
+		ctx->sk.vtable->run(&ctx->sk.vtable,
 			iv, ctx->cc, buf, clen);
+
+		/*
+		 * A partially used block is consumed: the counter value
+		 * returned by the CTR implementation cannot be used here,
+		 * since some implementations do not count a final partial
+		 * block, which would make the next call produce the same
+		 * bytes again.
+		 */
+		ctx->cc += (uint32_t)((clen + 15) >> 4);
 		buf += clen;
 		len -= clen;
 
